@@ -58,6 +58,8 @@ class Eff:
             return 'update_current_contract_wasm(%s)' % fmt(d['wasm'])
         if k == 'meta':
             return 'set_metadata(%s)' % fmt(d['val'])
+        if k == 'sdk':
+            return 'unmodelled SDK call %s(%s)' % (d['name'][:80], ', '.join(fmt(a) for a in d['args'])[:160])
         if k == 'sigverify':
             return 'ed25519_verify(pk=%s, msg=%s, sig=%s)' % (fmt(d['pk']), fmt(d['msg']), fmt(d['sig']))
         return k
@@ -72,7 +74,9 @@ PURE_SDK = (
     'storage::Storage::instance', 'storage::Storage::persistent', 'storage::Storage::temporary',
     '::extend_ttl', 'crypto::Crypto::keccak256', 'crypto::Crypto::sha256', 'crypto::Hash::<32>::to_bytes',
     'ledger::Ledger::timestamp', 'ledger::Ledger::sequence', 'soroban_sdk::Symbol::new', 'soroban_sdk::String::',
-    'soroban_sdk::Bytes::', 'soroban_sdk::BytesN::<', 'soroban_sdk::Vec::<', 'soroban_sdk::Address::to_val',
+    'soroban_sdk::Bytes::', 'soroban_sdk::BytesN::<', 'soroban_sdk::Vec::<', 'soroban_sdk::Address::to_val', 'soroban_sdk::Symbol::', 'soroban_sdk::Val::',
+    'soroban_sdk::Env::logs', 'soroban_sdk::logs::', 'soroban_sdk::Address::to_string', 'soroban_sdk::Address::from_', 'soroban_sdk::Duration', 'soroban_sdk::Timepoint',
+    'soroban_sdk::I256', 'soroban_sdk::U256', 'ledger::Ledger::', 'soroban_sdk::crypto::', 'soroban_sdk::iter::', 'soroban_sdk::vec::', 'soroban_sdk::map::', 'soroban_sdk::bytes::',
     'soroban_sdk::Address::from_string', 'soroban_sdk::Address::from_str', 'soroban_sdk::Map::<',
     'deploy::Deployer::with_address', 'deploy::Deployer::with_current_contract',
     ' as soroban_sdk::xdr::ToXdr>::to_xdr', ' as soroban_sdk::xdr::FromXdr>::from_xdr',
@@ -169,7 +173,10 @@ def classify(g, ctx, bb, t):
     if crate in ('soroban_sdk', 'soroban_token_sdk', 'soroban_env_common', 'soroban_env_guest', 'soroban_env_host'):
         if any(p in callee for p in PURE_SDK):
             return None
-        raise Unclassified('unclassified SDK leaf %s at %s' % (callee, at))
+        # an SDK call the leaf model does not know: kept as an opaque effect so that every rule that bounds the
+        # effects of an entry point ("all effects are guarded by ...", "no other effect") sees it (fail closed,
+        # but as a located finding rather than an aborted run)
+        return Eff('sdk', ctx, bb, callee, at, name=callee.split('::', 1)[-1], args=A())
     return None
 
 
@@ -187,7 +194,7 @@ def effects(g):
     return out
 
 
-STATE_KINDS = ('sw', 'sr', 'supd', 'pub', 'tokev', 'xcall', 'invoke', 'deploy', 'wasm', 'meta')
+STATE_KINDS = ('sw', 'sr', 'supd', 'pub', 'tokev', 'xcall', 'invoke', 'deploy', 'wasm', 'meta', 'sdk')
 
 
 def state_effects(g):
